@@ -4,14 +4,14 @@ use std::collections::BTreeMap;
 use std::io::Write;
 
 const COLS: &[&str] = &[
-    "*", "*", "a", "a", "b", "c", "(a|b)", "(b|a)", "(b|c)", "(a)", "あ", "(あ|a)", "x", "y", "()", "(", "(|a)", "ab", "*a", "\u{3000}", "(\u{3000}|a)", "a\u{a0}",
+    "*", "*", "a", "a", "b", "c", "(a|b)", "(b|a)", "(b|c)", "(|a)", "(b||c)", "(a)", "あ", "(あ|a)", "x", "y", "()", "(", "(|a)", "ab", "*a", "\u{3000}", "(\u{3000}|a)", "a\u{a0}",
 ];
 // alternative lists whose first member starts with '(' or whose last member ends with ')'
 const PAREN_COLS: &[&str] = &["((|a)", "(a|))", "((|))", "(()", "())", "((|b|[)", "(]|a|))"];
 const OUTS: &[&str] = &[
     "$1", "$2", "$3", "$4", "$5", "R", "S", "*", "$", "$x", "$1x", "あ", "$10", "x$1", "$01", "\u{3000}", "$1\u{a0}",
 ];
-const FEATS: &[&str] = &["a", "a", "b", "b", "c", "あ", "x", "y", "", "ab", "*", "(", ")", "[", "]", "\u{3000}", "a\u{a0}"];
+const FEATS: &[&str] = &["a", "a", "b", "b", "c", "あ", "x", "y", "", "", "ab", "*", "(", ")", "[", "]", "\u{3000}", "a\u{a0}"];
 
 fn gen_rule(rng: &mut Rng, tag: usize, dirty: bool) -> String {
     // 1 rule in 14 copies the first k columns: all-'*' pattern, output $1..$k (it truncates longer
@@ -24,7 +24,7 @@ fn gen_rule(rng: &mut Rng, tag: usize, dirty: bool) -> String {
     let mut cols = vec![];
     for _ in 0..ncol {
         // mostly the small alphabet so that rules overlap
-        let c = if rng.chance(1, 12) { *rng.pick(PAREN_COLS) } else if !dirty || rng.chance(9, 10) { COLS[rng.below(9) as usize] } else { *rng.pick(COLS) };
+        let c = if rng.chance(1, 12) { *rng.pick(PAREN_COLS) } else if !dirty || rng.chance(9, 10) { COLS[rng.below(11) as usize] } else { *rng.pick(COLS) };
         cols.push(c.to_string());
     }
     let nout = 1 + rng.below(3) as usize;
